@@ -9,17 +9,22 @@ MODELLED = ("worktree.go: Checkout, createBranch, getCommitFromCheckoutOptions, 
             "resetIndex, resetWorktree, resetWorktreeToTree (steps 1-2), checkoutChange, containsUnstagedChanges, "
             "checkKeepResetConflicts + the part of Status it reads, setHEADCommit, headTree — over flattened trees "
             "path -> (mode, blob) (Model/Porcelain.v); not modelled: merkletrie traversal order and directory/file conflicts "
-            "(guard df_free), the metadata shortcut of the filesystem noder, sparse dirs / skip-worktree, submodules, "
+            "(guard df_free), deleted blobs / nested trees (missing commits, missing root trees, tree/blob hashes as targets ARE modelled), the metadata shortcut of the filesystem noder, sparse dirs / skip-worktree, submodules, "
             "ResetOptions.Files, autocrlf, .gitignore, the billy filesystem calls themselves (exercised by the correspondence)")
 TRUSTED = [
     "C-impl: harness/cmd/porcelain builds the repository of each case with go-git plumbing, runs the ops through "
     "Worktree.Checkout / Worktree.Reset and snapshots HEAD, refs, index and worktree after every op; compared with Model/Porcelain.porcelain_run",
+    "suite landing: same oracle without a model — IF the forced operation returns nil THEN HEAD, index and tracked files (gitlink = directory) equal "
+    "the target, git status has no tracked change, untracked files outside the target and not in its way are intact; refusals are accepted",
     "direct oracle: after every successful forced checkout / hard reset, git 2.39.5 `status --porcelain=v2 --branch -z --untracked-files=all` "
     "on the resulting repository (HEAD oid = target, no tracked change: git's reading of the index equals HEAD's tree and the files equal the index) + byte comparison of the worktree with the target tree and of untracked files with the snapshot before",
 ]
 ASSUMPTIONS = ["object ids are injective on the blobs of a case (contents stand for hashes in the model)",
                "no path of a case is a directory prefix of another one when the model is consulted (df_free); other cases are checked by the oracle only"]
-RULE = ("case = repository recipe (2-4 commits derived from each other by content / mode / type changes, refs, HEAD symbolic or detached, "
+RULE = ("suite landing (oracle only, both tiers): a target entry of every kind (file, executable, symlink, gitlink) on a worktree path held by "
+        "{empty dir, dir with untracked file, dir with ignored file, file, symlink to dir, symlink to file} x HEAD {lacks the path, tracks files "
+        "below it, tracks it as file/symlink} x {reset --hard, forced checkout by hash / by branch / with Create}; suite main: "
+        "case = repository recipe (2-4 commits derived from each other by content / mode / type changes, refs, HEAD symbolic or detached, "
         "index and worktree derived from HEAD's tree with staged / unstaged / untracked / rm --cached dirt) + 1-4 ops; buckets hard, untracked, "
         "rmcached, staged, random, errors, df; non-trivial = has a porcelain op on a non-empty history; distinct by content")
 
@@ -32,7 +37,7 @@ class Main(P.PorcelainSuite):
     name = "main"
     quick_n = 150
     thorough_n = 1000
-    buckets = [(5, "hard"), (3, "untracked"), (3, "rmcached"), (2, "staged"), (2, "random"), (1, "errors"), (1, "df")]
+    buckets = [(5, "hard"), (3, "untracked"), (3, "rmcached"), (2, "staged"), (2, "random"), (1, "errors"), (1, "missing"), (1, "df")]
     weights = {"force": 6, "plain": 2, "ckeep": 1, "hard": 6, "merge": 1, "keep": 1, "mixed": 1, "soft": 1}
 
     def oracle(self, ctx, cases, impl, model):
@@ -126,4 +131,156 @@ class Main(P.PorcelainSuite):
         return None
 
 
-SUITES = [Main()]
+OCCUPANTS = ["emptydir", "dir-untracked", "dir-ignored", "file", "link-to-dir", "link-to-file"]
+KINDS = ["f", "x", "l", "s"]
+
+
+class Landing(P.PorcelainSuite):
+    """oracle-only region the model excludes (directory/file conflicts): a target entry of every kind (file, executable,
+    symlink, gitlink directory) lands on a worktree path occupied by an empty directory, a directory holding an untracked or
+    an ignored file, a file, a symlink to a directory or a symlink to a file — through hard reset and every forced checkout
+    form.  IF the operation returns nil THEN HEAD, index and tracked worktree content equal the target, git status has no
+    tracked change and untracked files outside the target are still there.  A refusal is fine."""
+    name = "landing"
+    quick_n = 90
+    thorough_n = 700
+
+    def gen(self, rng, n, tier):
+        cases = []
+        combos = [(k, o, hv) for k in KINDS for o in OCCUPANTS for hv in ("absent", "dirtracked", "filetracked")]
+        for i in range(n):
+            # the first len(combos) cases walk the whole grid (72), the rest are random
+            k, occ, hv = combos[i] if i < len(combos) and tier == "thorough" else rng.choice(combos)
+            if i < len(combos) and tier != "thorough":
+                k, occ, hv = combos[(i * 7 + rng.randrange(7)) % len(combos)]
+            p = rng.choice(["d", "d", "sub/d"])
+            base = [["a", "f", "A\n"], ["keepdir/k", "f", "K\n"], [".gitignore", "f", "*.ign\n"]]
+            if p.startswith("sub/"):
+                base.append(["sub/keep", "f", "S\n"])
+            if k == "l":
+                tent = [p, "l", rng.choice(["a", "keepdir", "nowhere"]) if "/" not in p else rng.choice(["../a", "../keepdir", "nowhere"])]
+            elif k == "s":
+                tent = [p, "s", ""]
+            else:
+                tent = [p, k, rng.choice(["T\n", "", "x"])]
+            head = [list(e) for e in base]
+            wt = [list(e) for e in base]
+            if hv == "dirtracked":
+                head.append([p + "/x", "f", "X\n"])
+                wt.append([p + "/x", "f", "X\n"])
+                if rng.random() < 0.3:
+                    head.append([p + "/deep/y", "x", "Y\n"])
+                    wt.append([p + "/deep/y", "x", "Y\n"])
+                occ = occ if occ in ("dir-untracked", "dir-ignored") else rng.choice(["dir-untracked", "dir-ignored", "none"])
+            elif hv == "filetracked":
+                hk = rng.choice(["f", "l", "x"])
+                he = [p, hk, ("a" if "/" not in p else "../a") if hk == "l" else "H\n"]
+                head.append(he)
+                if rng.random() < 0.4:
+                    wt.append(list(he))        # clean tracked occupant
+                    occ = "none"
+            if occ == "emptydir":
+                wt.append([p, "d", ""])
+            elif occ == "dir-untracked":
+                wt.append([p + "/u.txt", "f", "mine\n"])
+            elif occ == "dir-ignored":
+                wt.append([p + "/u.ign", "f", "ignored\n"])
+            elif occ == "file":
+                wt.append([p, "f", "occupant\n"])
+            elif occ == "link-to-dir":
+                wt.append([p, "l", "keepdir" if "/" not in p else "../keepdir"])
+            elif occ == "link-to-file":
+                wt.append([p, "l", "a" if "/" not in p else "../a"])
+            target = [list(e) for e in base] + [tent]
+            if rng.random() < 0.2:
+                wt.append(["other.txt", "f", "untracked\n"])
+            form = rng.choice(["reset", "hash", "branch", "create"])
+            if form == "reset":
+                op = {"op": "reset", "commit": 1, "mode": "hard"}
+            else:
+                op = {"op": "checkout", "branch": "", "hash": -1, "create": False, "force": True, "keep": False}
+                if form == "hash":
+                    op["hash"] = 1
+                elif form == "branch":
+                    op["branch"] = "refs/heads/other"
+                else:
+                    op.update({"create": True, "branch": "refs/heads/new", "hash": 1})
+            ops = [op]
+            if rng.random() < 0.25:
+                ops.append({"op": "reset", "commit": 0, "mode": "hard"})
+            cases.append({"bucket": "land:%s-on-%s:%s" % (k, occ, hv), "commits": [{"tree": P.norm(head)}, {"tree": P.norm(target)}],
+                          "refs": [["refs/heads/master", 0], ["refs/heads/other", 1]], "head": ["sym", "refs/heads/master"],
+                          "index": P.norm(head), "wt": P.norm(wt), "ops": ops})
+        return cases
+
+    def nontrivial(self, c):
+        return True
+
+    def oracle(self, ctx, cases, impl, model):
+        fails = {}
+        self.succeeded = self.refused = 0
+        for c in cases:
+            r = impl.get(c["id"])
+            if r is None or not (r.get("extra") or {}).get("steps"):
+                fails[c["id"]] = "no reply from the implementation"
+                continue
+            hashes = r["extra"]["commits"]
+            for k, (op, pre, st) in enumerate(P.steps_of(c, r)):
+                if st["res"] != "ok":
+                    self.refused += 1
+                    continue
+                self.succeeded += 1
+                tc = P.target_commit(c, op, pre)
+                t = P.tree(c, tc)
+                if t is None:
+                    fails[c["id"]] = "op %d: success on a target that is not a commit" % k
+                    break
+                why = self.landed(c, k, op, pre, st["snap"], st.get("git"), tc, t, hashes)
+                if why:
+                    fails[c["id"]] = why
+                    break
+        return fails
+
+    def landed(self, c, k, op, pre, post, g, tc, t, hashes):
+        if P.head_commit(post) != tc:
+            return "op %d: HEAD resolves to %s, target is %s" % (k, P.head_commit(post), tc)
+        pidx, pwt = P.fmap(post["index"]), P.fmap(post["wt"])
+        if pidx != t:
+            return "op %d: index differs from the target tree: %s" % (k, sorted(set(pidx.items()) ^ set(t.items()))[:3])
+        dirs = set(post.get("dirs") or [])
+        for p, e in sorted(t.items()):
+            if e[0] == "s":
+                if p not in dirs:
+                    return "op %d: gitlink %s is not a directory on disk (%s)" % (k, p, pwt.get(p))
+            elif pwt.get(p) != e:
+                return "op %d: tracked %s is %s on disk%s, target has %s" % (k, p, pwt.get(p), " (a directory)" if p in dirs else "", e)
+        prewt, preidx = P.fmap(pre["wt"]), P.fmap(pre["index"])
+        for p, e in sorted(prewt.items()):
+            if e[0] == "d" or p in preidx or p in t or conflicts(p, t):
+                continue
+            if pwt.get(p) != e:
+                hd = P.tree(c, P.head_commit(pre)) or {}
+                if any(p.startswith(q + "/") and q not in t for q in hd):
+                    return "untracked-lost:under-deleted-head-path op %d: untracked %s was %s, now %s" % (k, p, e, pwt.get(p))
+                return "op %d: untracked %s (not in the target, not in its way) was %s, now %s" % (k, p, e, pwt.get(p))
+        if g:
+            if g["status2"].startswith("ERROR"):
+                return "op %d: git status failed: %s" % (k, g["status2"][:200])
+            oid, ents = P.parse_status_v2(g["status2"])
+            tracked = [e for e in ents if e[0] != "?"]
+            if tracked:
+                return "op %d: git status reports tracked changes %s" % (k, tracked[:4])
+            if oid != hashes[tc]:
+                return "op %d: git sees HEAD at %s, target commit is %s" % (k, oid, hashes[tc])
+        return None
+
+    def finding_class(self, case, reason, reply):
+        if reason.startswith("untracked-lost:under-deleted-head-path"):
+            return "hard-reset-removes-untracked-dir-at-deleted-path"
+        return None
+
+    def extra(self, ctx, cases, impl, model):
+        return {"landing_ops_succeeded": getattr(self, "succeeded", 0), "landing_ops_refused": getattr(self, "refused", 0)}
+
+
+SUITES = [Main(), Landing()]
